@@ -25,6 +25,7 @@ func main() {
 	tier := flag.String("tier", "quick", "quick|thorough")
 	dump := flag.String("dump", "", "dump calls/guards of a function (debug)")
 	list := flag.String("list", "", "list function names containing substring (debug)")
+	dumpFuncs := flag.Bool("dump-funcs", false, "print the known-functions table (tables/known_funcs.tsv) for the current tree")
 	dumpNames := flag.Bool("dump-names", false, "print the parameter-name reference table (tables/names.tsv) for the current tree")
 	flag.Parse()
 	debug.SetGCPercent(400)
@@ -54,6 +55,11 @@ func main() {
 		p.DumpNameTable(os.Stdout)
 		return
 	}
+	if *dumpFuncs {
+		p.DumpFuncTable(os.Stdout)
+		return
+	}
+	p.KnownFuncs, p.NewHelpers = p.LoadFuncTable(*verif + "/tables/known_funcs.tsv")
 	nAliased, nRenamed := p.LoadNameTable(*verif + "/tables/names.tsv")
 	p.NamesAliased, p.NamesRenamed = nAliased, nRenamed
 	if *list != "" {
